@@ -196,10 +196,22 @@ fn apply_to_ast(source: &str, rules_json: &str) -> Result<Block, String> {
 }
 
 fn end_to_end(source: &str, rules_json: &str, generator: &str) -> Result<String, String> {
-    let config_text = format!("{{ generator: {}, rules: {} }}", generator, rules_json);
+    end_to_end_with_module(source, rules_json, generator, None)
+}
+
+/// with a module: `src/m.lua` holds it, the configuration bundles (path mode) and the rules run on the bundle
+fn end_to_end_with_module(source: &str, rules_json: &str, generator: &str, module: Option<&str>) -> Result<String, String> {
+    let config_text = if module.is_some() {
+        format!("{{ generator: {}, rules: {}, bundle: {{ require_mode: \"path\" }} }}", generator, rules_json)
+    } else {
+        format!("{{ generator: {}, rules: {} }}", generator, rules_json)
+    };
     let config: Configuration = json5::from_str(&config_text).map_err(|e| format!("config: {}", e))?;
     let resources = Resources::from_memory();
     resources.write("src/main.lua", source).map_err(|e| format!("write: {:?}", e))?;
+    if let Some(module) = module {
+        resources.write("src/m.lua", module).map_err(|e| format!("write: {:?}", e))?;
+    }
     let result = catch_unwind(AssertUnwindSafe(|| {
         darklua_core::process(&resources, Options::new("src/main.lua").with_configuration(config))
     }));
@@ -318,15 +330,17 @@ fn main() {
             for line in stdin.lock().lines() {
                 let line = line.expect("stdin");
                 let parts: Vec<&str> = line.split('\t').collect();
-                if parts.len() != 3 {
+                if parts.len() != 3 && parts.len() != 4 {
                     continue;
                 }
                 let rules_json = parts[0];
                 let generator = parts[1];
                 let source = String::from_utf8(unhex(parts[2])).unwrap_or_default();
+                // optional fourth field: a module `src/m.lua` (hex) that the entry requires; the run then bundles
+                let module = parts.get(3).map(|m| String::from_utf8(unhex(m)).unwrap_or_default());
                 let input = term_of(parse(&source));
                 let out_ast = term_of(apply_to_ast(&source, rules_json));
-                let e2e_text = end_to_end(&source, rules_json, generator);
+                let e2e_text = end_to_end_with_module(&source, rules_json, generator, module.as_deref());
                 let (e2e, text_hex) = match &e2e_text {
                     Ok(text) => (
                         term_of(parse(text).map_err(|e| format!("output does not parse ({}): {}", e, text))),
